@@ -965,15 +965,42 @@ def r18_13(rep: Report) -> None:
         if _c is not cls:
             continue
         for call in [x for x in ast.walk(fn) if isinstance(x, ast.Call) and isinstance(x.func, ast.Attribute)
-                     and x.func.attr == 'check_almost_equal']:
-            txt = ' '.join(_expand(fn, a) for a in call.args)
+                     and x.func.attr in ('check_almost_equal', 'check_less_than_or_equal', 'check_less_than',
+                                         'check_greater_or_equal', 'check_greater_than', 'check_true')]:
+            # the forms a tolerance comparison takes: check_almost_equal(a, b, delta=T); a bound on the absolute
+            # difference, check_less_than_or_equal(abs(d), T) / check_greater_or_equal(T, abs(d)) / check_true(abs(d) <= T)
+            kind = call.func.attr
+            delta, none_ok = None, False
+            if kind == 'check_almost_equal':
+                txt = ' '.join(_expand(fn, a) for a in call.args)
+                delta = next((k.value for k in call.keywords if k.arg == 'delta'), call.args[2] if len(call.args) > 2 else None)
+                none_ok = True
+            else:
+                if kind == 'check_true':
+                    c = call.args[0] if call.args else None
+                    if not (isinstance(c, ast.Compare) and len(c.ops) == 1):
+                        continue
+                    a, b = c.left, c.comparators[0]
+                    if isinstance(c.ops[0], (ast.Gt, ast.GtE)):
+                        a, b = b, a
+                    elif not isinstance(c.ops[0], (ast.Lt, ast.LtE)):
+                        continue
+                elif len(call.args) >= 2:
+                    a, b = call.args[0], call.args[1]
+                    if kind.startswith('check_greater'):
+                        a, b = b, a
+                else:
+                    continue
+                txt = _expand(fn, a)
+                if 'abs(' not in txt and ' - ' not in txt:      # a difference, signed (R18.12 decides that) or absolute
+                    continue
+                delta = b
             if 'expected_decode_time' not in txt:
                 continue
             n += 1
             construct = f'{rel}::MediaSegment.{fn.name}'
-            delta = next((k.value for k in call.keywords if k.arg == 'delta'), call.args[2] if len(call.args) > 2 else None)
             got = norm(subst_locals(fn, delta, allow_calls=True)) if delta is not None else '(none: exact equality)'
-            if delta is None or got == 'self.tolerance':
+            if (delta is None and none_ok) or got == 'self.tolerance':
                 rep.ok(rid, construct, 'decode time compared within the segment tolerance', got)
             else:
                 rep.fail(rid, construct, 'decode time compared within the segment tolerance',
